@@ -1383,7 +1383,7 @@ class C17(SimpleSpec):
     model_imports = ["Base", "Extracted", "Criteria", "Search", "AuditGraph", "DepGraph", "Resolve", "Show", "Suggest", "ShowSuggest"]
     coq_files = ["Properties/C17.v"]
     theorems = ["C17_suggested_pair_is_common", "C17_candidate_heals", "C17_dedup_merges_criteria", "C17_dedup_keeps_all_criteria",
-                "C17_certifying_every_suggestion_makes_vet_pass"]
+                "C17_certifying_every_suggestion_makes_vet_pass", "C17_preselected_criteria_connect"]
     level_text = ("Theorems about the model of suggest_delta / compute_suggest: for every failing crate the (from, to) pair chosen lies "
                   "in the reachable-from-root resp. reachable-from-target set of EVERY failed criterion (for any diffstat oracle), and "
                   "certifying such a pair for a list carrying a failed criterion makes the crate certified for it (C17_candidate_heals, "
@@ -2202,7 +2202,7 @@ class C10(HistorySpec):
     pid = "C10"
     oracle_fn = staticmethod(hist.oracle_c10)
     coq_files = ["Properties/C10.v"]
-    theorems = ["C10_update_preserves_vetting", "C10_certify_preserves_vetting", "C10_prune_preserves", "C10_regenerate_imports_preserves", "C10_certify_cleanup_preserves",
+    theorems = ["C10_update_preserves_vetting", "C10_certify_preserves_vetting", "C10_trust_preserves_vetting", "C10_import_preserves_vetting", "C10_prune_preserves", "C10_regenerate_imports_preserves", "C10_certify_cleanup_preserves",
                 "C10_trust_cleanup_preserves", "C10_import_cleanup_preserves", "C10_init_and_regenerate_certify",
                 "C10_regenerate_search_never_fails", "C10_prune_keeps_required_entries", "C10_failing_crate_keeps_stored_imports"]
     level_text = ("END-TO-END theorems: vets s -> vets (k s) for k = prune with all 8 flag combinations, regenerate imports, the "
@@ -2259,7 +2259,7 @@ class C13(HistorySpec):
     oracle_fn = staticmethod(hist.oracle_c13)
     coq_files = ["Properties/C13.v"]
     theorems = ["C13_check_update_leaves_settled_store", "C13_locked_check_writes_the_store_it_read",
-                "C13_written_lists_are_canonical", "C13_check_keeps_exemption_meaning"]
+                "C13_written_lists_are_canonical", "C13_check_keeps_exemption_meaning", "C13_check_on_a_written_store_writes_it_back", "C13_second_check_writes_the_same_store"]
     level_text = ("Theorems: the check's own update leaves every local audit, imported audit, wildcard audit and publisher record of "
                   "a settled store (nothing fresh) in place whatever paths are chosen; a --locked check writes back the store it read; "
                   "written criteria lists are canonical (re-writing reproduces them); the check never narrows an exemption. "
